@@ -19,6 +19,7 @@ Hypothesis Sft : Sfield S.
 Hypothesis Seqb : seqb_spec S.
 Hypothesis Ord : ordered S.
 Hypothesis Habs2 : forall v : S, sabs v * sabs v = v * v.
+Hypothesis Hadj : forall v : S, sadj v = v.   (* real value types: math::adjoint = id (SPAI-0 accumulates adjoint(a_ii)) *)
 Let Srt : Sring S := F_R Sft.
 Add Ring SRingSm4 : Srt.
 Local Notation ip := (@ip S).
@@ -189,7 +190,7 @@ Proof.
     - apply pd_sort_rows, Hpd.
     - apply rows_nodup_sort, Hnd.
     - rewrite sort_rows_nrows. exact Hts. }
-  apply (built_contracts2 Sft Seqb Ord Habs2 (@RGS S) ce dc ml ts M k nc pc Hd); [|exact Ht].
+  apply (built_contracts2 Sft Seqb Ord Habs2 Hadj (@RGS S) ce dc ml ts M k nc pc Hd); [|exact Ht].
   apply top_strict_gs, Ht.
 Qed.
 
